@@ -198,6 +198,22 @@ class DiskCache:
         self._cache = diskcache.Cache(expanded, **kwargs)
         self._hmac_key = _load_or_create_hmac_key(expanded)
 
+    def _read_record(self, key: str, default: Any) -> Any:
+        """Read one stored record; a record the store cannot decode counts as absent.
+
+        A damaged row (e.g. a text record that is no longer valid UTF-8) makes
+        sqlite raise while reading it: that is corruption, hence a miss.
+        """
+        try:
+            return self._cache.get(key, default=default)
+        except Exception as exc:
+            logger.warning("Cache record unreadable for key %s (%s) — evicting", key, type(exc).__name__)
+            try:
+                self._cache.delete(key)
+            except Exception:
+                pass
+            return default
+
     def get(self, key: str) -> tuple[bool, Any]:
         """Return (hit, value) from disk cache.
 
@@ -207,7 +223,7 @@ class DiskCache:
         """
         sentinel = object()
         # Raw bytes — diskcache stores bytes as-is (binary mode), no pickle.load
-        raw_bytes = self._cache.get(key, default=sentinel)
+        raw_bytes = self._read_record(key, sentinel)
         if raw_bytes is sentinel:
             return False, None
 
@@ -217,7 +233,7 @@ class DiskCache:
             self._cache.delete(key)
             return False, None
 
-        stored_hmac = self._cache.get(key + self._HMAC_SUFFIX, default=None)
+        stored_hmac = self._read_record(key + self._HMAC_SUFFIX, None)
         if stored_hmac is None:
             logger.warning("Cache entry missing HMAC for key %s — evicting", key)
             self._cache.delete(key)
